@@ -3,6 +3,9 @@
 // Engine: xstate (BFS over histories, replayed on fresh real objects).
 //
 //	events   set(ns, user list)  = create or reload of namespace ns with that user list
+//	         abn(ns, user list)  = abandoned set: the reload is prepared (standby generation =
+//	                               clone of the user table + rebuild of ns) but never committed;
+//	                               the live generation keeps serving, the reference is unchanged
 //	         del(ns)             = delete namespace ns
 //	rig UM   real CreateUserManager (first event) and, for every later event, exactly what
 //	         Manager.ReloadNamespacePrepare / DeleteNamespace do with the user table:
@@ -41,7 +44,7 @@ type cred struct {
 }
 
 type event struct {
-	Op    string `json:"op"` // set | del
+	Op    string `json:"op"` // set | del | abn (abandoned set: prepared, never committed)
 	NS    string `json:"ns"`
 	Users []cred `json:"users,omitempty"`
 }
@@ -53,6 +56,9 @@ func (e event) String() string {
 	var p []string
 	for _, c := range e.Users {
 		p = append(p, fmt.Sprintf("%q/%q", c.User, c.Pw))
+	}
+	if e.Op == "abn" {
+		return "abandoned_set(" + e.NS + ": " + strings.Join(p, ", ") + ")"
 	}
 	return "set(" + e.NS + ": " + strings.Join(p, ", ") + ")"
 }
@@ -89,10 +95,13 @@ type refState map[string][]cred // namespace -> user list
 func applyRef(hist []event) refState {
 	st := refState{}
 	for _, e := range hist {
-		if e.Op == "set" {
+		switch e.Op {
+		case "set":
 			st[e.NS] = e.Users
-		} else {
+		case "del":
 			delete(st, e.NS)
+		case "abn":
+			// prepared but never committed: the configuration that is live does not change
 		}
 	}
 	return st
@@ -204,13 +213,23 @@ func stepUM(um *server.UserManager, i int, e event) *server.UserManager {
 			um = server.CloneUserManager(um)
 			um.ClearNamespaceUsers(e.NS)
 		}
+		if e.Op == "abn" {
+			standby := server.CloneUserManager(um)
+			standby.RebuildNamespaceUsers(nsConfig(e, false))
+		}
 		return um
 	}
 	n := server.CloneUserManager(um)
-	if e.Op == "set" {
+	switch e.Op {
+	case "set":
 		n.RebuildNamespaceUsers(nsConfig(e, false))
-	} else {
+	case "del":
 		n.ClearNamespaceUsers(e.NS)
+	case "abn":
+		// what ReloadNamespacePrepare does to the user table, without the commit: the standby
+		// generation is built and dropped, the generation that was live keeps serving
+		n.RebuildNamespaceUsers(nsConfig(e, false))
+		return um
 	}
 	return n
 }
@@ -230,17 +249,30 @@ func stepMGR(m *server.Manager, i int, e event) *server.Manager {
 				ev.Fatalf("DeleteNamespace: %v", err)
 			}
 		}
+		if e.Op == "abn" {
+			if err := m.ReloadNamespacePrepare(nsConfig(e, true)); err != nil {
+				ev.Fatalf("ReloadNamespacePrepare(%v): %v", e, err)
+			}
+		}
 		return m
 	}
-	if e.Op == "set" {
+	switch e.Op {
+	case "set":
 		if err := m.ReloadNamespacePrepare(nsConfig(e, true)); err != nil {
 			ev.Fatalf("ReloadNamespacePrepare(%v): %v", e, err)
 		}
 		if err := m.ReloadNamespaceCommit(e.NS); err != nil {
 			ev.Fatalf("ReloadNamespaceCommit(%v): %v", e, err)
 		}
-	} else if err := m.DeleteNamespace(e.NS); err != nil {
-		ev.Fatalf("DeleteNamespace: %v", err)
+	case "abn":
+		// prepare only; the next prepare overwrites the standby generation
+		if err := m.ReloadNamespacePrepare(nsConfig(e, true)); err != nil {
+			ev.Fatalf("ReloadNamespacePrepare(%v): %v", e, err)
+		}
+	case "del":
+		if err := m.DeleteNamespace(e.NS); err != nil {
+			ev.Fatalf("DeleteNamespace: %v", err)
+		}
 	}
 	return m
 }
@@ -370,7 +402,21 @@ func userLists(thorough bool) [][]cred {
 	return out
 }
 
-func enabled(lists [][]cred) func(hist []event) []event {
+// abnAllowed: user lists used by abandoned sets. Quick: names {u, v} x passwords {p, q, p:q}
+// (a user name shared between namespaces, a second one, a password with ':'); thorough: all.
+func abnAllowed(l []cred, thorough bool) bool {
+	if thorough {
+		return true
+	}
+	for _, c := range l {
+		if c.User == "u:" || c.Pw == ":" || c.Pw == "p:" {
+			return false
+		}
+	}
+	return true
+}
+
+func enabled(lists [][]cred, thorough bool) func(hist []event) []event {
 	return func(hist []event) []event {
 		st := applyRef(hist)
 		var out []event
@@ -384,6 +430,9 @@ func enabled(lists [][]cred) func(hist []event) []event {
 				}
 				if free {
 					out = append(out, event{Op: "set", NS: ns, Users: l})
+					if abnAllowed(l, thorough) {
+						out = append(out, event{Op: "abn", NS: ns, Users: l})
+					}
 				}
 			}
 			if _, ok := st[ns]; ok {
@@ -494,12 +543,12 @@ func main() {
 		spec := xstate.Spec[event]{
 			MaxDepth: maxDepth,
 			Workers:  16,
-			// stop after 30 s (quick) / 8 min (thorough) of search so that the run stays inside its
+			// stop after 20 s (quick) / 8 min (thorough) of search so that the run stays inside its
 			// tier budget on a loaded machine; it is then reported as capped (levels below complete)
 			Stop: func() bool {
-				return r.TimeUp() || time.Since(searchStart) > time.Duration(r.Pick(30, 480))*time.Second
+				return r.TimeUp() || time.Since(searchStart) > time.Duration(r.Pick(20, 480))*time.Second
 			},
-			Enabled: enabled(lists),
+			Enabled: enabled(lists, r.Thorough()),
 			Replay: func(hist []event) xstate.Result {
 				if len(hist) == 0 {
 					return xstate.Result{Key: "empty"}
@@ -536,7 +585,7 @@ func main() {
 		states += st.States
 		transitions += st.Transitions
 		perSearch[sr.name] = map[string]interface{}{"states": st.States, "transitions": st.Transitions, "depth_reached": st.MaxDepth,
-			"max_depth_bound": maxDepth, "frontier_per_depth": st.PerDepth, "events_alphabet": 3*len(lists) + 3, "user_lists": len(lists)}
+			"max_depth_bound": maxDepth, "frontier_per_depth": st.PerDepth, "events_alphabet": len(enabled(lists, r.Thorough())(nil)) + 3, "user_lists": len(lists)}
 	}
 	close(staleTotal)
 	<-doneStale
@@ -547,7 +596,8 @@ func main() {
 	r.Set("stale_password_entries_seen", staleSum)
 	r.Sample(kase{History: []event{{Op: "set", NS: "A", Users: []cred{{"u", "p"}}}, {Op: "set", NS: "B", Users: []cred{{"u", "p:q"}}}, {Op: "del", NS: "B"}}})
 	r.Sample(kase{History: []event{{Op: "set", NS: "A", Users: []cred{{"u:", ":"}}}, {Op: "set", NS: "A", Users: []cred{{"v", "q"}}}}})
-	r.Set("rule", "BFS over histories of set(ns, user list) / del(ns), ns in {A,B,C}, user lists of one user to depth 4 (thorough: depth 5, plus a second search with one- and two-user lists to depth 3) over names {u, v, 'u:'} x passwords {p, q, 'p:q', ':', 'p:'}; an event is enabled only if no other namespace holds the same user+password; states are deduplicated on the canonical content of UserManager.users / userNamespaces plus the reference state; every transition is executed on fresh real objects and followed by the oracle over all 15 pairs + 7 probe pairs.")
+	r.Sample(kase{History: []event{{Op: "set", NS: "A", Users: []cred{{"u", "p"}}}, {Op: "set", NS: "B", Users: []cred{{"u", "q"}}}, {Op: "abn", NS: "B", Users: []cred{{"u", "p:q"}}}, {Op: "set", NS: "A", Users: []cred{{"u", "p"}}}}})
+	r.Set("rule", "BFS over histories of set(ns, user list) [prepare+commit] / abn(ns, user list) [abandoned set: the standby generation is built by clone+rebuild / ReloadNamespacePrepare and never committed; the reference does not change and credentials are checked on the generation that is live] / del(ns), ns in {A,B,C}, user lists of one user to depth 4 (thorough: depth 5, plus a second search with one- and two-user lists to depth 3) over names {u, v, 'u:'} x passwords {p, q, 'p:q', ':', 'p:'}; an event is enabled only if no other namespace holds the same user+password; states are deduplicated on the canonical content of UserManager.users / userNamespaces plus the reference state; every transition is executed on fresh real objects and followed by the oracle over all 15 pairs + 7 probe pairs.")
 	r.Assume("a pair whose password check passes but for which GetNamespaceByUser returns \"\" does not authenticate: handleHandshakeResponse binds namespace \"\" and IsAllowConnect refuses the connection (counted as stale_password_entries_seen)")
 	pprof.StopCPUProfile()
 	r.Assume("the control plane keeps user+password unique across namespaces and user names unique inside a namespace (cc checkForDuplicateUsernameAndPassword, models verifyUsers)")
